@@ -628,9 +628,10 @@ func init() {
 		Rule:        "full hand tree of the first hand (every allowed wager action, small amount menu) followed by a check-down second hand, per configuration, on the real engine; a shadow tally of accepted actions is compared with the statistics block published at settlement, and the blocks are required to be zero when the next hand opens and at standby",
 		Assumptions: []string{"2-4 participants, stacks 1..9, blind structures 1/2, 1/2+ante, dealer-blind"},
 		Suites: func(tier string) []*Suite {
-			return handTreeSuites("c14/", c14Configs(tier), func(hc *handCfg) func(td *TD) []Monitor {
+			ss := handTreeSuites("c14/", c14Configs(tier), func(hc *handCfg) func(td *TD) []Monitor {
 				return func(td *TD) []Monitor { return []Monitor{newMonC14()} }
 			})
+			return append(ss, c14RaceSuites(tier)...)
 		},
 	})
 	register(&Check{
